@@ -4,8 +4,9 @@
   What the action lemmas of `ProvActions.lean` assume about the tokens among the arguments is
   derived from C12's sorts of the grammar symbols (`C12.VI`) and a check of the production table
   decided by the kernel (`argCheck`): no NUMBER / EOF token outside the redirection productions,
-  reserved types in the slots that become reserved-word / operator / pipe nodes, BANG in slot 1
-  of `pipeline_command`, two or three symbols in a redirection production, no `None` value in
+  reserved types in the slots that become reserved-word / operator / pipe nodes, WORD /
+  ASSIGNMENT_WORD in the slots handed to `_expandword`, WORD as the delimiter of a here-document
+  redirect, BANG in slot 1 of `pipeline_command`, two or three symbols in a redirection production, no `None` value in
   `elif_clause`.
 -/
 import Bashlex.Props.C04.ProvActions
@@ -56,7 +57,20 @@ def semiSort : Option C12.Srt → Bool
   | some (.tok (some ty)) => C12.resOK ty || ty == .EOF
   | _ => true
 
+/-- a slot handed to `_expandword`: a WORD / ASSIGNMENT_WORD token, or no token at all -/
+def wordSort : Option C12.Srt → Bool
+  | some (.tok (some ty)) => ty == .WORD || ty == .ASSIGNMENT_WORD
+  | some (.tok none) => false
+  | _ => true
+
+/-- the delimiter of a here-document redirect: a WORD token -/
+def hereSort : Option C12.Srt → Bool
+  | some (.tok (some ty)) => ty == .WORD
+  | _ => false
+
 def argCheck1 (f : String) (σs : List C12.Srt) : Bool :=
+  (wordSlots f).all (fun i => wordSort σs[i - 1]?) &&
+  (!(f == "p_redirection_heredoc") || hereSort σs[σs.length - 1]?) &&
   σs.all (tokOKfor f) &&
   (resSlots f).all (fun i => resSort σs[i - 1]?) &&
   (!isRedirF f || σs.length == 2 || σs.length == 3) &&
@@ -146,6 +160,34 @@ theorem resSlot_of {i : Nat} (hc : resSort σs[i - 1]? = true) (h : Forall2 C12.
   | none => rw [hty] at hc; cases hc
   | some ty => rw [hty] at hc; exact ⟨ty, hty, hc⟩
 
+theorem wordSlot_of {i : Nat} (hc : wordSort σs[i - 1]? = true) (h : Forall2 C12.HasSort σs args) :
+    WordSlot args i := by
+  intro t ht
+  obtain ⟨σ, hσ, hsort⟩ := forall2_get h _ _ (getD_tok ht)
+  rw [hσ, sort_of_tok hsort] at hc
+  cases hty : t.ttype with
+  | none => rw [hty] at hc; cases hc
+  | some ty =>
+    rw [hty] at hc
+    simp only [wordSort, Bool.or_eq_true, beq_iff_eq] at hc
+    rcases hc with rfl | rfl
+    · left; simp [Token.is, hty]
+    · right; simp [Token.is, hty]
+
+theorem here_of (hc : hereSort σs[σs.length - 1]? = true) (h : Forall2 C12.HasSort σs args) :
+    ∀ t, args.getD (args.length - 1) .none = .tok t → t.is .WORD = true := by
+  intro t ht
+  rw [forall2_length h] at hc
+  obtain ⟨σ, hσ, hsort⟩ := forall2_get h _ _ (getD_tok ht)
+  rw [hσ, sort_of_tok hsort] at hc
+  cases hty : t.ttype with
+  | none => rw [hty] at hc; cases hc
+  | some ty =>
+    rw [hty] at hc
+    have : ty = .WORD := by simpa [hereSort] using hc
+    subst this
+    simp [Token.is, hty]
+
 theorem elif_of (hc : σs.all elifSort = true) (h : Forall2 C12.HasSort σs args) :
     ∀ a ∈ args, a ≠ .none ∧ ∀ t, a = .tok t → Reserved t := by
   intro a ha
@@ -205,6 +247,9 @@ structure ArgsOK (T : Token → Prop) (f : String) (args : List SVal) : Prop whe
   bang : f = "p_pipeline_command" → ∀ t, args.getD 0 .none = .tok t → t.ttype = some .BANG
   semi : f = "p_list_terminator" →
     ∀ t, args.getD 0 .none = .tok t → t.value = .str [';'] → Reserved t
+  words : ∀ i ∈ wordSlots f, WordSlot args i
+  here : f = "p_redirection_heredoc" →
+    ∀ t, args.getD (args.length - 1) .none = .tok t → t.is .WORD = true
 
 theorem argsOK_of {f : String} {σs : List C12.Srt} (hc : argCheck1 f σs = true)
     (h : Forall2 C12.HasSort σs args) (ha : ∀ a ∈ args, GV W T a)
@@ -212,8 +257,8 @@ theorem argsOK_of {f : String} {σs : List C12.Srt} (hc : argCheck1 f σs = true
     ArgsOK T f args := by
   unfold argCheck1 at hc
   simp only [Bool.and_eq_true, Bool.or_eq_true, Bool.not_eq_true', beq_iff_eq] at hc
-  obtain ⟨⟨⟨⟨⟨h1, h2⟩, h3⟩, h4⟩, h5⟩, h6⟩ := hc
-  refine ⟨fun hf hs => partToks_of h1 hf hs h, ?_, ?_, ?_, ?_, ?_⟩
+  obtain ⟨⟨⟨⟨⟨⟨⟨h7, h8⟩, h1⟩, h2⟩, h3⟩, h4⟩, h5⟩, h6⟩ := hc
+  refine ⟨fun hf hs => partToks_of h1 hf hs h, ?_, ?_, ?_, ?_, ?_, ?_, ?_⟩
   · intro i hi
     exact resSlot_of (List.all_eq_true.mp h2 i hi) h
   · intro hf
@@ -234,6 +279,12 @@ theorem argsOK_of {f : String} {σs : List C12.Srt} (hc : argCheck1 f σs = true
     rcases h6 with h6 | h6
     · exact absurd hf (by simpa using h6)
     · exact semi_of h6 h ha hStr
+  · intro i hi
+    exact wordSlot_of (List.all_eq_true.mp h7 i hi) h
+  · intro hf
+    rcases h8 with h8 | h8
+    · exact absurd hf (by simpa using h8)
+    · exact here_of h8 h
 
 theorem sat_actionCore (hC : Ctx W T np) (hwf : ∀ t, T t → C12.TokWF t)
     (ha : ∀ a ∈ args, GV W T a) {fname : String} (h : fname ∈ C07.knownActions)
@@ -262,23 +313,23 @@ theorem sat_actionCore (hC : Ctx W T np) (hwf : ∀ t, T t → C12.TokWF t)
   · exact sound_list1 hC hwf ha (hA.parts rfl rfl) hA.res
   · exact sound_list_terminator hC hwf ha (hA.semi rfl)
   · exact sound_newline_list hC hwf ha (hA.parts rfl rfl) hA.res
-  · exact sound_pattern hC hwf ha (hA.parts rfl rfl) hA.res
+  · exact sound_pattern hC hwf ha (hA.parts rfl rfl) hA.res hA.words
   · exact sound_pattern_list hC hwf ha (hA.parts rfl rfl) hA.res
   · exact sound_pipeline hC hwf ha (hA.parts rfl rfl) hA.res
   · exact sound_pipeline_command hC hwf ha (hA.bang rfl)
   · exact sound_redirection hC ha (hA.len rfl)
-  · exact sound_redirection_heredoc hC ha (hA.len rfl)
+  · exact sound_redirection_heredoc hC ha (hA.len rfl) (hA.here rfl)
   · exact sound_redirection_list hC hwf ha (hA.parts rfl rfl) hA.res
   · exact sound_select_command hC hwf ha (hA.parts rfl rfl) hA.res
   · exact sound_shell_command hC hwf ha (hA.parts rfl rfl) hA.res
   · exact sound_simple_command hC hwf ha (hA.parts rfl rfl) hA.res
-  · exact sound_simple_command_element hC hwf ha hA.res
+  · exact sound_simple_command_element hC hwf ha hA.res hA.words
   · exact sound_simple_list hC hwf ha (hA.parts rfl rfl) hA.res
   · exact sound_simple_list1 hC hwf ha (hA.parts rfl rfl) hA.res
   · exact sound_simple_list_terminator hC hwf ha hA.res
   · exact sound_subshell hC hwf ha (hA.parts rfl rfl) hA.res
   · exact sound_timespec hC hwf ha (hA.parts rfl rfl) hA.res
-  · exact sound_word_list hC hwf ha (hA.parts rfl rfl) hA.res
+  · exact sound_word_list hC hwf ha (hA.parts rfl rfl) hA.res hA.words
 
 /-- **every semantic action of the generated grammar** preserves the provenance invariant, given
     C12's sorts of its arguments -/
